@@ -1,6 +1,6 @@
 """T1/T2 translator for the outputs (C04, C17, C03): flags, modes, format strings, call patterns of src/output/*.c."""
 import os, re
-from .translate import strip_comments, func_body, c_unescape, cpp_value, STR, resolve_locals, reachable_body
+from .translate import strip_comments, func_body, c_unescape, cpp_value, STR, resolve_locals, reachable_body, defines, file_path_var
 from .core import coq_bytes
 from .skel import emit_skeletons
 
@@ -43,14 +43,57 @@ def cb(v):
     return "true" if v else "false"
 
 
+def _lenval(e, L):
+    """value of a length expression over strlen(logMessage), numerals, + - ( ) and integer casts, at strlen = L"""
+    e = re.sub(r"\(\s*(?:size_t|ssize_t|int|unsigned|unsigned\s+int|long)\s*\)", "", e)
+    e = re.sub(r"strlen\s*\(\s*logMessage\s*\)", str(L), e)
+    if not re.fullmatch(r"[\d\s+\-()]+", e) or not re.search(r"\d", e):
+        return None
+    try:
+        return int(eval(e, {"__builtins__": {}}))
+    except Exception:
+        return None
+
+
+def framed_by_newline(fb):
+    """the record handed to the single write() is the message followed by one '\\n': BUF = malloc(n+1); memcpy(BUF, logMessage, n);
+    BUF[n] = '\\n'; write(fd, BUF, n+1) with n = strlen(logMessage) -- whatever the locals are called and however n is spelt"""
+    t = resolve_locals(fb)
+    w = re.findall(r"\bwrite\s*\(\s*\w+\s*,\s*(\w+)\s*,\s*([^;]+?)\)\s*;", t)
+    if len(w) != 1:
+        return False
+    buf, wl = w[0]
+    b = re.escape(buf)
+    ma = re.findall(r"\b%s\s*=\s*(?:\(\s*char\s*\*\s*\)\s*)?malloc\s*\(([^;]+)\)\s*;" % b, t)
+    cp = re.findall(r"\bmemcpy\s*\(\s*%s\s*,\s*logMessage\s*,([^;]+)\)\s*;" % b, t)
+    nl = re.findall(r"\b%s\s*\[([^\]]+)\]\s*=\s*'\\n'\s*;" % b, t)
+    st = re.findall(r"\b%s\s*\[[^\]]+\]\s*=" % b, t)
+    if not (len(ma) == 1 and len(cp) == 1 and len(nl) == 1 and len(st) == 1):
+        return False
+    return all(_lenval(ma[0], L) == L + 1 and _lenval(cp[0], L) == L and _lenval(nl[0], L) == L and _lenval(wl, L) == L + 1 for L in (0, 7, 1000))
+
+
+def fixed_path_arg(run, rel, body):
+    """devtty/devnull: the literal (or a macro of this file defined as one literal) handed to snoopy_output_fileoutput"""
+    m = re.search(r"return\s+snoopy_output_fileoutput\s*\(\s*logMessage\s*,\s*(?:" + STR + r"|([A-Za-z_]\w*))\s*\)\s*;", body)
+    if not m:
+        return b""
+    if m.group(1) is not None:
+        return c_unescape(m.group(1))
+    d = defines(run.src(rel)).get(m.group(2), "")
+    mm = re.fullmatch(STR, d)
+    return c_unescape(mm.group(1)) if mm else b""
+
+
 def tr_output(run):
     notes = run.notes
     v = {}
     fo = strip_comments(run.src("src/output/fileoutput.c"))
     # the function together with the file-local static helpers it calls (a statement may live in an extracted helper)
     fb = reachable_body(fo, "snoopy_output_fileoutput") or ""
-    m_fopen = re.search(r"fopen\s*\(\s*filePath\s*,\s*" + STR + r"\s*\)", fb)
-    m_open = re.search(r"\bopen\s*\(\s*filePath\s*,\s*([A-Z_|\s]+?)\s*(?:,\s*[0-7]+\s*)?\)", fb)
+    pv = re.escape(file_path_var(fo) or "filePath")
+    m_fopen = re.search(r"fopen\s*\(\s*" + pv + r"\s*,\s*" + STR + r"\s*\)", fb)
+    m_open = re.search(r"\bopen\s*\(\s*" + pv + r"\s*,\s*([A-Z_|\s]+?)\s*(?:,\s*[0-7]+\s*)?\)", fb)
     nwrite = len(re.findall(r"\bwrite\s*\(", fb))
     nstdio = len(re.findall(r"\b(fprintf|fputs|fwrite|fputc|dprintf|vfprintf)\s*\(", fb))
     if m_open:
@@ -72,7 +115,7 @@ def tr_output(run):
     m = re.search(r"fprintf\s*\(\s*fp\s*,\s*" + STR, fb)
     if m and c_unescape(m.group(1)) == b"%s\n":
         v["file_suffix"] = b"\n"
-    elif re.search(r"lineBuf\s*\[\s*lineLen\s*-\s*1\s*\]\s*=\s*'\\n'", fb):
+    elif framed_by_newline(fb):
         v["file_suffix"] = b"\n"
     else:
         v["file_suffix"] = b""
@@ -80,8 +123,7 @@ def tr_output(run):
     v["file_empty_arg_fails"] = bool(re.search(r'if\s*\(\s*0\s*==\s*strcmp\s*\(\s*arg\s*,\s*""\s*\)\s*\)\s*\{\s*return\s+SNOOPY_OUTPUT_FAILURE', fb))
     for k, f, fn in (("devtty_path", "devttyoutput", "snoopy_output_devttyoutput"), ("devnull_path", "devnulloutput", "snoopy_output_devnulloutput")):
         b = func_body(strip_comments(run.src("src/output/%s.c" % f)), fn) or ""
-        m = re.search(r"return\s+snoopy_output_fileoutput\s*\(\s*logMessage\s*,\s*" + STR + r"\s*\)\s*;", b)
-        v[k] = c_unescape(m.group(1)) if m else b""
+        v[k] = fixed_path_arg(run, "src/output/%s.c" % f, b)
     # stdout / stderr
     for k, f, fn, stream, fdname in (("stdout", "stdoutoutput", "snoopy_output_stdoutoutput", "stdout", "STDOUT_FILENO"),
                                      ("stderr", "stderroutput", "snoopy_output_stderroutput", "stderr", "STDERR_FILENO")):
